@@ -159,6 +159,18 @@ inductive Reach (cfg : Cfg) : St → Prop
   | init : Reach cfg init
   | step {s s' a} : Reach cfg s → step cfg s a = some s' → Reach cfg s'
 
+/-- the response a requester holds (number of the peer stanza it was made from) -/
+def RPc.held : RPc → Option Nat
+  | .leaving (.reply k) => some k
+  | .done (.reply k) _ => some k
+  | _ => none
+
+/-- … as long as it has not been closed -/
+def RPc.heldOpen : RPc → Option Nat
+  | .leaving (.reply k) => some k
+  | .done (.reply k) false => some k
+  | _ => none
+
 /-- requester `i` holds the response made from peer stanza `k` -/
 def holds (s : St) (i k : Nat) : Prop :=
   s.rpc i = .leaving (.reply k) ∨ ∃ c, s.rpc i = .done (.reply k) c
